@@ -226,6 +226,25 @@ def _run(t: str, s: int) -> Result:
                 k = kernels.compile_kernel(text, fm, ["evaluate"], programs, cap=cap)
                 kernel_list.append((k, cap, group))
 
+    # structure witnesses: the real generate_subgraphs / is_sparse are compared with spec/Structure.tla; a deviation is
+    # not a violation by itself - the request exercising it joins the kernels judged below (every input pattern, A2)
+    from . import structure_conf
+
+    sdevs, s_r, s_n = structure_conf.check_subgraphs(t)
+    xdevs, x_r, x_n = structure_conf.check_sparse(t)
+    witness_first = len(kernel_list)
+    for text, fm in structure_conf.witness_requests(sdevs) + structure_conf.witness_requests(xdevs):
+        probe = kernels.compile_kernel(text, fm, ["evaluate"], [], cap=1)
+        if probe.error:
+            continue
+        for cap in ([1, 2] if has_sparse_output(probe) else [2]):
+            kernel_list.append((kernels.compile_kernel(text, fm, ["evaluate"], programs, cap=cap), cap, "structure-witness"))
+    witness_kernels = list(range(witness_first, len(kernel_list)))
+    structure = {"subgraph_lattices_compared": s_n, "subgraph_deviations": len(sdevs), "is_sparse_compared": x_n,
+                 "is_sparse_deviations": len(xdevs), "witness_kernels": len(witness_kernels),
+                 "first_deviations": [dv["what"][:300] for dv in (sdevs[:3] + xdevs[:3])],
+                 "states": s_r.distinct + x_r.distinct, "transitions": s_r.generated + x_r.generated}
+
     # target sweep: every format of the target (all modes x orderings) against natural input formats for copy-like shapes
     from . import kset
 
@@ -264,9 +283,10 @@ def _run(t: str, s: int) -> Result:
     gen_cases, gen_expected = [], 0
     order = list(range(len(kernel_list)))
     rng.shuffle(order)
+    order = witness_kernels + [ki for ki in order if ki not in set(witness_kernels)]
     GEN_VALUES = [1, 0, 2, 3, -1, 0.5, 4, 2]
     for ki in order:
-        if len(gen_cases) >= P["gen_kernels"]:
+        if len(gen_cases) >= P["gen_kernels"] + len(witness_kernels):
             break
         k, cap, group = kernel_list[ki]
         if group in ("broadcast-target", "big-literal", "inexact-literal"):
@@ -604,9 +624,10 @@ def _run(t: str, s: int) -> Result:
         traces.append({"cid": cid, **m, "v": l["v"], "content": l["content"], "out": obs_cases[cid - 1]["obs"][0]})
     return Result(
         tier=t, seed=s, wall=timer.s(), kernels=len(kernel_list), programs=len(programs), skipped_requests=skipped,
-        states=ra.distinct + rc_states[0] + states_gen + probe_states[0], transitions=ra.generated + rc_states[1] + trans_gen, depth=ra.depth,
+        states=ra.distinct + rc_states[0] + states_gen + probe_states[0] + structure["states"],
+        transitions=ra.generated + rc_states[1] + trans_gen + structure["transitions"], depth=ra.depth,
         exhaustive_input_kernels=len(gen_cases), exhaustive_input_behaviours=gen_expected,
         coverage=ra.coverage, records=records, traces=traces, wide_bad=wide_bad, chain_bad=chain_bad, chained=chained,
         float_bad=float_bad, float_compared=float_compared, probe_bad=probe_bad, probes=len(probes),
-        native_tasks=len(tasks), wide_tasks=len(wide_tasks),
+        native_tasks=len(tasks), wide_tasks=len(wide_tasks), structure=structure,
     )
